@@ -651,6 +651,14 @@ package resolver
 //@   assert at call internal/dnsutil.ErrorToEDE#1: arg0 == lastret("(*middleware/resolver.Resolver).Resolve", 1)
 //@   assert at return#5: result == lastret("internal/dnsutil.SetRcodeWithEDE#1") && lastret("(*middleware/resolver.Resolver).Resolve", 1) != nil
 //@   assert at return#9: result == lastret("(*middleware/resolver.Resolver).Resolve") && lastret("(*middleware/resolver.Resolver).Resolve", 1) == nil
+//@   # C06 / C10 ("every reply has QR set and echoes the query's ... opcode and question"): the upstream's reply is passed on
+//@   # with QR set, the query's opcode and the CLIENT'S spelling of the question name
+//@   assert at store dns.MsgHdr.Response#1: value && target == lastret("(*middleware/resolver.Resolver).Resolve")
+//@   assert at store dns.MsgHdr.Opcode#1: value == req.Opcode && target == lastret("(*middleware/resolver.Resolver).Resolve")
+//@   assert at store dns.Question.Name#1: value == q.Name
+//@   # ... and what is returned as is has an rcode of at most 15 (the deferred `cancel()` is a context.CancelFunc, assumed
+//@   # to write no program-visible memory, so the heap is still known at the return)
+//@   assert at return#9: result.Rcode <= 15
 //@   # C11 (every admitted query gets a reply): an upstream reply is passed on as is only with an rcode that fits the DNS
 //@   # header (0..15); an extended rcode - which cannot be encoded for a client without EDNS, so the reply would fail
 //@   # to pack and nothing would be sent - is turned into SERVFAIL built from the request
